@@ -181,7 +181,7 @@ func vH_C08_revert() {
 			// later FlushRevert must not be fooled by it
 			vl = 12
 		}
-		if i > 0 && vChoose("roots-only-flush", 0, vParam("rootsonly")) == 1 {
+		if vChoose("roots-only-flush", 0, vParam("rootsonly")) == 1 {
 			// nothing dirty: this flush appends a roots record and nothing else
 			vTrace("roots-only")
 		} else {
